@@ -1,7 +1,449 @@
 /-
-  Property C05 — theorems about QEModel.C05 (stub; to be filled in).
+  Property C05 — two-player Nash solvers are sound; pure_nash_brute is exact.
+  Theorems about the definitions of QEModel.C05 (the ones the driver executes),
+  over an arbitrary linearly ordered field `K` (exact arithmetic).
+
+  Specification (Lemmas/C05Nash.lean): `IsProb n x`, `IsNash m n A B x y`,
+  `IsNashTol tol m n A B x y`, written with the model's own `payoffVec` / `dotTo`.
 -/
 import QEModel.C05
+import QEProofs.Lemmas.C05Nash
+import QEProofs.Lemmas.C05Support
+import QEProofs.Lemmas.C05Pure
+import QEProofs.Lemmas.C05KSub
+import QEProofs.Lemmas.C05Vertex
+import QEProofs.Lemmas.C05LHOut
+import QEProofs.Lemmas.C05Complete
+import QEProofs.Lemmas.C05Enum
+import QEProofs.Lemmas.C05Gauss
+import QEProofs.Lemmas.C05Example
 namespace QE.C05
+open QE QE.MatAlg Finset
+
+set_option linter.unusedSectionVars false
+variable {K : Type} [Field K] [LinearOrder K] [IsStrictOrderedRing K]
+
+/-! ## the support criterion -/
+
+/-- **Supports inside the best-response sets ⇒ Nash.** If `x`, `y` are probability vectors,
+    every pure payoff of player 0 against `y` is at most `v` with equality on the support of `x`,
+    and likewise for player 1 with `w`, then `(x, y)` is a Nash equilibrium. -/
+theorem support_br_nash (m n : ℕ) (A B : ℕ → ℕ → K) (x y : ℕ → K) (v w : K)
+    (hx : IsProb m x) (hy : IsProb n y)
+    (hA : ∀ i, i < m → payoffVec n A y i ≤ v)
+    (hAs : ∀ i, i < m → x i ≠ 0 → payoffVec n A y i = v)
+    (hB : ∀ j, j < n → payoffVec m B x j ≤ w)
+    (hBs : ∀ j, j < n → y j ≠ 0 → payoffVec m B x j = w) :
+    IsNash m n A B x y :=
+  support_br_nash' m n A B x y v w hx hy hA hAs hB hBs
+
+/-- the specification is the usual one: in a Nash equilibrium (no profitable *pure* deviation,
+    as `IsNash` is written) no *mixed* deviation is profitable either -/
+theorem isNash_no_mixed_deviation (m n : ℕ) (A B : ℕ → ℕ → K) (x y : ℕ → K)
+    (h : IsNash m n A B x y) :
+    (∀ x', IsProb m x' → dotTo m x' (payoffVec n A y) ≤ dotTo m x (payoffVec n A y)) ∧
+    (∀ y', IsProb n y' → dotTo n y' (payoffVec m B x) ≤ dotTo n y (payoffVec m B x)) :=
+  ⟨fun x' hx' => dot_le_of_le m x' _ _ hx' h.2.2.1, fun y' hy' => dot_le_of_le n y' _ _ hy' h.2.2.2⟩
+
+/-! ## support enumeration -/
+
+/-- a support as the enumeration produces it: distinct action indices below `m` -/
+def ValidSupp (m : ℕ) (s : List ℕ) : Prop := s.Nodup ∧ ∀ a, a ∈ s → a < m
+
+/-- one player's half: from a `True` answer of `_indiff_mixed_action` for `(P, own, opp)` the
+    scattered opponent action `y` is a probability vector against which every own action earns
+    at most `z k`, with equality on `own`. -/
+theorem indiff_half (solve : M K → M K → Option (M K)) (hs : SolveSound solve)
+    (P : ℕ → ℕ → K) (mOwn nOpp : ℕ) (own opp : List ℕ) (z : ℕ → K)
+    (hlen : own.length = opp.length) (hown : ValidSupp mOwn own) (hopp : ValidSupp nOpp opp)
+    (h : indiff solve P mOwn own opp = some z) :
+    IsProb nOpp (scatter opp z) ∧
+    (∀ i, i < mOwn → payoffVec nOpp P (scatter opp z) i ≤ z own.length) ∧
+    (∀ i, i ∈ own → payoffVec nOpp P (scatter opp z) i = z own.length) := by
+  obtain ⟨hpos, hsum, hrows, hbr⟩ := indiff_some solve hs P mOwn own opp z h
+  have hoppb : ∀ t, t < opp.length → opp.getD t 0 < nOpp := by
+    intro t ht
+    rw [getD_of_lt _ _ ht]
+    exact hopp.2 _ (List.getElem_mem _)
+  have hpay : ∀ i, payoffVec nOpp P (scatter opp z) i
+      = ∑ t ∈ range own.length, P i (opp.getD t 0) * z t := by
+    intro i
+    rw [payoffVec_eq, sum_mul_scatter nOpp opp z (fun j => P i j) hoppb, hlen]
+  have heq : ∀ i, i ∈ own → payoffVec nOpp P (scatter opp z) i = z own.length := by
+    intro i hi
+    obtain ⟨r, hr, he⟩ := mem_getD own i hi
+    rw [hpay, ← he]
+    exact hrows r hr
+  refine ⟨⟨?_, ?_⟩, ?_, heq⟩
+  · intro j _
+    apply scatter_nonneg
+    intro t ht
+    exact le_of_lt (hpos t (by omega))
+  · rw [sumRange_eq_sum, sum_scatter nOpp opp z hoppb, ← hlen]
+    exact hsum
+  · intro i hi
+    by_cases hmem : i ∈ own
+    · exact le_of_eq (heq i hmem)
+    · rcases hbr with hk | hbr
+      · exact absurd (mem_of_nodup_full own mOwn hown.1 hk hown.2 i hi) hmem
+      · rw [hpay]
+        exact hbr i hi hmem
+
+/-- **Every pair yielded for a pair of supports is a Nash equilibrium** (model of the body of
+    the inner `while` of `_support_enumeration_gen`, both `_indiff_mixed_action` calls and the
+    scatter `out[p][supp] = action[:-1]`), for any sound linear solver. -/
+theorem tryPair_sound (solve : M K → M K → Option (M K)) (hs : SolveSound solve)
+    (m n : ℕ) (A B : ℕ → ℕ → K) (s0 s1 : List ℕ) (x y : ℕ → K)
+    (hlen : s0.length = s1.length) (h0 : ValidSupp m s0) (h1 : ValidSupp n s1)
+    (h : tryPair solve m n A B s0 s1 = some (x, y)) :
+    IsNash m n A B x y := by
+  unfold tryPair at h
+  generalize ha : indiff solve A m s0 s1 = oa at h
+  cases oa with
+  | none => simp at h
+  | some zy =>
+    dsimp only at h
+    generalize hb : indiff solve B n s1 s0 = ob at h
+    cases ob with
+    | none => simp at h
+    | some zx =>
+      dsimp only at h
+      have hxy : scatter s0 zx = x ∧ scatter s1 zy = y := by simpa using h
+      obtain ⟨hx, hy⟩ := hxy
+      subst hx; subst hy
+      obtain ⟨py, hAle, hAeq⟩ := indiff_half solve hs A m n s0 s1 zy hlen h0 h1 ha
+      obtain ⟨px, hBle, hBeq⟩ := indiff_half solve hs B n m s1 s0 zx hlen.symm h1 h0 hb
+      exact support_br_nash m n A B _ _ (zy s0.length) (zx s1.length) px py hAle
+        (fun i _ hne => hAeq i (scatter_ne_zero_mem s0 zx i hne)) hBle
+        (fun j _ hne => hBeq j (scatter_ne_zero_mem s1 zy j hne))
+
+/-- **support_enumeration is sound**: every element of the model's output list whose
+    support pair is well-formed is a Nash equilibrium. (That every enumerated pair *is*
+    well-formed is `supportPairs_valid` below.) -/
+theorem support_enum_sound_of_valid (solve : M K → M K → Option (M K)) (hs : SolveSound solve)
+    (m n : ℕ) (A B : ℕ → ℕ → K)
+    (e : (List ℕ × List ℕ) × ((ℕ → K) × (ℕ → K)))
+    (he : e ∈ supportEnum solve m n A B)
+    (hv : e.1.1.length = e.1.2.length ∧ ValidSupp m e.1.1 ∧ ValidSupp n e.1.2) :
+    IsNash m n A B e.2.1 e.2.2 := by
+  unfold supportEnum at he
+  rw [List.mem_filterMap] at he
+  obtain ⟨p, _, hp⟩ := he
+  cases htp : tryPair solve m n A B p.1 p.2 with
+  | none => rw [htp] at hp; simp at hp
+  | some xy =>
+    rw [htp] at hp
+    have : (p, xy) = e := by simpa using hp
+    subst this
+    exact tryPair_sound solve hs m n A B p.1 p.2 xy.1 xy.2 hv.1 hv.2.1 hv.2.2 htp
+
+/-- every pair of supports visited by the three nested loops of `_support_enumeration_gen`
+    (driven by `next_k_array`) consists of two duplicate-free lists of valid action indices of
+    the same length -/
+theorem supportPairs_valid (m n : ℕ) (p : List ℕ × List ℕ) (hp : p ∈ supportPairs m n) :
+    p.1.length = p.2.length ∧ ValidSupp m p.1 ∧ ValidSupp n p.2 := by
+  unfold supportPairs at hp
+  rw [List.mem_flatMap] at hp
+  obtain ⟨k, _, hp⟩ := hp
+  rw [List.mem_flatMap] at hp
+  obtain ⟨s0, hs0, hp⟩ := hp
+  rw [List.mem_map] at hp
+  obtain ⟨s1, hs1, rfl⟩ := hp
+  obtain ⟨l0, n0, b0⟩ := kSubsets_mem m k s0 hs0
+  obtain ⟨l1, n1, b1⟩ := kSubsets_mem n k s1 hs1
+  exact ⟨by rw [l0, l1], ⟨n0, b0⟩, ⟨n1, b1⟩⟩
+
+/-- **support_enumeration is sound** (all `m`, `n`, all payoffs): every pair in the model's
+    output list is a Nash equilibrium, for any sound linear solver. -/
+theorem support_enum_sound (solve : M K → M K → Option (M K)) (hs : SolveSound solve)
+    (m n : ℕ) (A B : ℕ → ℕ → K)
+    (e : (List ℕ × List ℕ) × ((ℕ → K) × (ℕ → K)))
+    (he : e ∈ supportEnum solve m n A B) :
+    IsNash m n A B e.2.1 e.2.2 := by
+  have he' := he
+  unfold supportEnum at he'
+  rw [List.mem_filterMap] at he'
+  obtain ⟨p, hp, hpe⟩ := he'
+  have hv := supportPairs_valid m n p hp
+  cases htp : tryPair solve m n A B p.1 p.2 with
+  | none => rw [htp] at hpe; simp at hpe
+  | some xy =>
+    rw [htp] at hpe
+    have : (p, xy) = e := by simpa using hpe
+    subst this
+    exact support_enum_sound_of_valid solve hs m n A B _ he hv
+
+/-- **support_enumeration is sound, as executed by the driver** (no hypothesis left): with
+    the residual-checked exact solver every yielded pair is a Nash equilibrium. -/
+theorem support_enum_sound_exact (m n : ℕ) (A B : ℕ → ℕ → K)
+    (e : (List ℕ × List ℕ) × ((ℕ → K) × (ℕ → K)))
+    (he : e ∈ supportEnum solveChecked m n A B) :
+    IsNash m n A B e.2.1 e.2.2 :=
+  support_enum_sound solveChecked solveChecked_sound m n A B e he
+
+/-- non-vacuity: on von Stengel's 3×2 example the exact solver yields three equilibria -/
+example : (supportEnum solveChecked 3 2 (fnOfMat [[3, 3], [2, 5], [0, 6]])
+    (fnOfMat [[3, 2, 3], [2, 6, 1]]) : List ((List ℕ × List ℕ) × ((ℕ → ℚ) × (ℕ → ℚ)))).length = 3 := by
+  decide +kernel
+
+/-- **support_enumeration is complete on the property's domain** (`m, n ≤ 5`, T2): an
+    equilibrium `(x, y)` whose supports `s0`, `s1` (as increasing lists) have the same size and
+    whose two indifference systems have at most one solution — both are consequences of
+    non-degeneracy — is in the output, for its own pair of supports, with exactly its
+    probabilities. `solve` is any sound solver that does not fail on uniquely solvable systems.
+    With `supportPairs_nodup_small` (no support pair is visited twice) it is there exactly once.
+    The bound `5` enters only through the finite check that the `next_k_array` walk visits every
+    `k`-subset (`kSubsets_complete_small`). -/
+theorem support_enum_complete (solve : M K → M K → Option (M K)) (hs : SolveSound solve)
+    (hr : SolveRegular solve) (m n : ℕ) (hm : m ≤ 5) (hn : n ≤ 5) (A B : ℕ → ℕ → K) (x y : ℕ → K)
+    (hN : IsNash m n A B x y) (s0 s1 : List ℕ)
+    (h0s : s0.Pairwise (· < ·)) (h1s : s1.Pairwise (· < ·))
+    (h0 : ∀ i, i ∈ s0 ↔ i < m ∧ x i ≠ 0) (h1 : ∀ j, j ∈ s1 ↔ j < n ∧ y j ≠ 0)
+    (hlen : s0.length = s1.length)
+    (hu0 : ∀ z' z'', Solves (indiffSys A s0 s1) (indiffRhs s0.length) z' →
+      Solves (indiffSys A s0 s1) (indiffRhs s0.length) z'' → ∀ t, t < s0.length + 1 → z' t = z'' t)
+    (hu1 : ∀ z' z'', Solves (indiffSys B s1 s0) (indiffRhs s1.length) z' →
+      Solves (indiffSys B s1 s0) (indiffRhs s1.length) z'' → ∀ t, t < s1.length + 1 → z' t = z'' t) :
+    ∃ e, e ∈ supportEnum solve m n A B ∧ e.1 = (s0, s1) ∧
+      (∀ i, i < m → e.2.1 i = x i) ∧ (∀ j, j < n → e.2.2 j = y j) := by
+  obtain ⟨hx, hy, hA, hB⟩ := hN
+  have nd0 : s0.Nodup := h0s.imp (fun h => Nat.ne_of_lt h)
+  have nd1 : s1.Nodup := h1s.imp (fun h => Nat.ne_of_lt h)
+  have b0 : ∀ a, a ∈ s0 → a < m := fun a ha => ((h0 a).mp ha).1
+  have b1 : ∀ a, a ∈ s1 → a < n := fun a ha => ((h1 a).mp ha).1
+  have z0 : ∀ i, i < m → i ∉ s0 → x i = 0 := by
+    intro i hi hni; by_contra hne; exact hni ((h0 i).mpr ⟨hi, hne⟩)
+  have z1 : ∀ j, j < n → j ∉ s1 → y j = 0 := by
+    intro j hj hnj; by_contra hne; exact hnj ((h1 j).mpr ⟨hj, hne⟩)
+  -- the supports are not empty
+  have hk : 1 ≤ s0.length := by
+    have hsum : ∑ i ∈ range m, x i ≠ 0 := by
+      have := hx.2; rw [sumRange_eq_sum] at this; rw [this]; exact one_ne_zero
+    obtain ⟨i, hi, hne⟩ := exists_ne_zero_of_sum_ne_zero hsum
+    exact List.length_pos_of_mem ((h0 i).mpr ⟨mem_range.mp hi, hne⟩)
+  -- both `_indiff_mixed_action` calls succeed with the equilibrium's weights
+  obtain ⟨zy, hzy, hzyv, _⟩ := indiff_complete solve hs hr A m n s0 s1 y
+    (dotTo m x (payoffVec n A y)) hlen ⟨nd1, b1⟩ hy
+    (fun j hj => ⟨fun h => ((h1 j).mp h).2, fun h => (h1 j).mpr ⟨hj, h⟩⟩) hA
+    (fun i hi => nash_support_eq m x _ hx hA i (b0 i hi) ((h0 i).mp hi).2) hu0
+  obtain ⟨zx, hzx, hzxv, _⟩ := indiff_complete solve hs hr B n m s1 s0 x
+    (dotTo n y (payoffVec m B x)) hlen.symm ⟨nd0, b0⟩ hx
+    (fun i hi => ⟨fun h => ((h0 i).mp h).2, fun h => (h0 i).mpr ⟨hi, h⟩⟩) hB
+    (fun j hj => nash_support_eq n y _ hy hB j (b1 j hj) ((h1 j).mp hj).2) hu1
+  have htp : tryPair solve m n A B s0 s1 = some (scatter s0 zx, scatter s1 zy) := by
+    unfold tryPair; rw [hzy]; dsimp only; rw [hzx]
+  -- the pair of supports is visited
+  obtain ⟨hm0, hle0⟩ := mem_kSubsets_small m hm s0 h0s b0 hk
+  obtain ⟨hm1, hle1⟩ := mem_kSubsets_small n hn s1 h1s b1 (by omega)
+  have hpair : (s0, s1) ∈ supportPairs m n := by
+    unfold supportPairs
+    rw [List.mem_flatMap]
+    refine ⟨s0.length, List.mem_range'_1.mpr ⟨hk, by omega⟩, ?_⟩
+    rw [List.mem_flatMap]
+    refine ⟨s0, hm0, ?_⟩
+    rw [List.mem_map]
+    exact ⟨s1, by rw [hlen]; exact hm1, rfl⟩
+  refine ⟨((s0, s1), (scatter s0 zx, scatter s1 zy)), ?_, rfl, ?_, ?_⟩
+  · unfold supportEnum
+    rw [List.mem_filterMap]
+    exact ⟨(s0, s1), hpair, by simp [htp]⟩
+  · intro i hi
+    show scatter s0 zx i = x i
+    rw [scatter_congr s0 zx (fun t => x (s0.getD t 0)) (fun t ht => hzxv t (by omega)) i]
+    exact scatter_restrict m s0 x nd0 z0 i hi
+  · intro j hj
+    show scatter s1 zy j = y j
+    rw [scatter_congr s1 zy (fun t => y (s1.getD t 0)) (fun t ht => hzyv t (by omega)) j]
+    exact scatter_restrict n s1 y nd1 z1 j hj
+
+/-- **completeness, as executed by the driver** (no hypothesis on the solver left): with the
+    exact residual-checked Gauss-Jordan solver, whose soundness and regularity are proved
+    (`solveChecked_sound`, `solveChecked_regular`). -/
+theorem support_enum_complete_exact (m n : ℕ) (hm : m ≤ 5) (hn : n ≤ 5) (A B : ℕ → ℕ → K)
+    (x y : ℕ → K) (hN : IsNash m n A B x y) (s0 s1 : List ℕ)
+    (h0s : s0.Pairwise (· < ·)) (h1s : s1.Pairwise (· < ·))
+    (h0 : ∀ i, i ∈ s0 ↔ i < m ∧ x i ≠ 0) (h1 : ∀ j, j ∈ s1 ↔ j < n ∧ y j ≠ 0)
+    (hlen : s0.length = s1.length)
+    (hu0 : ∀ z' z'', Solves (indiffSys A s0 s1) (indiffRhs s0.length) z' →
+      Solves (indiffSys A s0 s1) (indiffRhs s0.length) z'' → ∀ t, t < s0.length + 1 → z' t = z'' t)
+    (hu1 : ∀ z' z'', Solves (indiffSys B s1 s0) (indiffRhs s1.length) z' →
+      Solves (indiffSys B s1 s0) (indiffRhs s1.length) z'' → ∀ t, t < s1.length + 1 → z' t = z'' t) :
+    ∃ e, e ∈ supportEnum solveChecked m n A B ∧ e.1 = (s0, s1) ∧
+      (∀ i, i < m → e.2.1 i = x i) ∧ (∀ j, j < n → e.2.2 j = y j) :=
+  support_enum_complete solveChecked solveChecked_sound solveChecked_isRegular m n hm hn A B x y hN
+    s0 s1 h0s h1s h0 h1 hlen hu0 hu1
+
+/-- non-vacuity of `support_enum_complete_exact`: the mixed equilibrium of the 2×2
+    coordination game satisfies every hypothesis -/
+example : ∃ e, e ∈ supportEnum solveChecked 2 2 exA exA ∧ e.1 = ([0, 1], [0, 1]) ∧
+    (∀ i, i < 2 → e.2.1 i = exx i) ∧ (∀ j, j < 2 → e.2.2 j = exx j) :=
+  support_enum_complete_exact 2 2 (by omega) (by omega) exA exA exx exx (by unfold IsNash IsProb; decide +kernel)
+    [0, 1] [0, 1] (by decide) (by decide) ex_supp ex_supp rfl ex_uniq ex_uniq
+
+
+/-- … exactly once: the loops never visit a pair of supports twice (`m, n ≤ 5`), so the output
+    of `supportEnum` has no two entries with the same supports -/
+theorem support_enum_once (solve : M K → M K → Option (M K)) (m n : ℕ) (hm : m ≤ 5) (hn : n ≤ 5)
+    (A B : ℕ → ℕ → K) : ((supportEnum solve m n A B).map (·.1)).Nodup := by
+  have hsub : ((supportEnum solve m n A B).map (·.1)).Sublist (supportPairs m n) := by
+    unfold supportEnum
+    generalize supportPairs m n = l
+    induction l with
+    | nil => simp
+    | cons p ps ih =>
+      rw [List.filterMap_cons]
+      cases htp : tryPair solve m n A B p.1 p.2 with
+      | none => simp only [Option.map_none]; exact ih.cons p
+      | some xy => simp only [Option.map_some, List.map_cons]; exact ih.cons_cons p
+  exact hsub.nodup (supportPairs_nodup_small m hm n hn)
+
+/-! ## completely labelled pairs, vertex enumeration -/
+
+/-- **A completely labelled pair of non-zero points of the best-response polytopes,
+    normalised, is a Nash equilibrium.** `x ≥ 0`, `B x ≤ c0`; `y ≥ 0`, `A y ≤ c1`; every label
+    binding for one of the two points. -/
+theorem completely_labelled_nash (m n : ℕ) (A B : ℕ → ℕ → K) (x y : ℕ → K) (c0 c1 : K)
+    (hx0 : ∀ i, i < m → 0 ≤ x i) (hy0 : ∀ j, j < n → 0 ≤ y j)
+    (hP : ∀ j, j < n → payoffVec m B x j ≤ c0) (hQ : ∀ i, i < m → payoffVec n A y i ≤ c1)
+    (hl0 : ∀ i, i < m → x i = 0 ∨ payoffVec n A y i = c1)
+    (hl1 : ∀ j, j < n → y j = 0 ∨ payoffVec m B x j = c0)
+    (hsx : ∑ i ∈ range m, x i ≠ 0) (hsy : ∑ j ∈ range n, y j ≠ 0) :
+    IsNash m n A B (fun i => x i / ∑ i ∈ range m, x i) (fun j => y j / ∑ j ∈ range n, y j) :=
+  completely_labelled_nash' m n A B x y c0 c1 hx0 hy0 hP hQ hl0 hl1 hsx hsy
+
+/-- **The payoff shifts of the solvers do not change the equilibria**: adding `s j` to player
+    0's payoffs in column `j` and `r i` to player 1's payoffs against action `i`
+    (`_initialize_tableaux` adds one constant per player, `_BestResponsePolytope` one per
+    opponent action) leaves the set of Nash equilibria unchanged. -/
+theorem nash_shift (m n : ℕ) (A B A' B' : ℕ → ℕ → K) (s r : ℕ → K) (x y : ℕ → K)
+    (hA : ∀ i j, A' i j = A i j + s j) (hB : ∀ j i, B' j i = B j i + r i)
+    (h : IsNash m n A' B' x y) : IsNash m n A B x y :=
+  nash_shift' m n A B A' B' s r x y hA hB h
+
+/-- **vertex_enumeration is sound, given Qhull's output describes the polytopes**
+    (model of `_ints_arr_to_bits`, the XOR matching with the skip of the zero vertex and the
+    `break`, and `_get_mixed_actions`; the labellings are `Nat` bit masks — the code's `uint64`
+    masks for `m + n ≤ 63`). If every supplied vertex of either polytope satisfies
+    `Vertex0OK` / `Vertex1OK` (non-negative raw coordinates, the payoff inequalities with the
+    labelled ones binding, zero only for the zero labelling) for the shifted payoff matrices
+    `A'`, `B'`, then every yielded pair is a Nash equilibrium of the original game `(A, B)`. -/
+theorem ve_sound (m n : ℕ) (A B A' B' : ℕ → ℕ → K) (s r : ℕ → K)
+    (hA : ∀ i j, A' i j = A i j + s j) (hB : ∀ j i, B' j i = B j i + r i)
+    (lab0 lab1 : List (List ℕ)) (eqs0 eqs1 : List (List K)) (t0 t1 : K)
+    (h0 : ∀ i, i < lab0.length →
+      Vertex0OK m n B' ((lab0.map intsToBits).getD i 0) (eqs0.getD i []) t0)
+    (h1 : ∀ j, j < lab1.length →
+      Vertex1OK m n A' ((lab1.map intsToBits).getD j 0) (eqs1.getD j []) t1)
+    (e : List K × List K) (he : e ∈ vertexEnum m n lab0 lab1 eqs0 eqs1 t0 t1) :
+    IsNash m n A B (fun i => e.1.getD i 0) (fun j => e.2.getD j 0) := by
+  unfold vertexEnum at he
+  dsimp only at he
+  rw [List.mem_map] at he
+  obtain ⟨ij, hij, rfl⟩ := he
+  obtain ⟨hi, hj, hnz, hxor⟩ := veMatch_mem m n _ _ ij.1 ij.2 hij
+  apply nash_shift m n A B A' B' s r _ _ hA hB
+  exact veMixedActions_nash m n A' B' _ _ _ _ t0 t1 hxor hnz
+    (h0 ij.1 (by simpa using hi)) (h1 ij.2 (by simpa using hj))
+
+/-- non-vacuity of the hypotheses of `ve_sound`: the 1×1 game with payoffs 1, polytopes
+    `P = Q = [0, 1]`, vertices `0` (labelled by its own non-negativity constraint) and `1`
+    (labelled by the payoff constraint) -/
+example : Vertex0OK 1 1 (fun _ _ => (1 : ℚ)) 2 [1, 0] 1 :=
+  ⟨1, by decide +kernel, by decide +kernel, by decide +kernel, by decide +kernel,
+    by intro _; simp [rawCoord]⟩
+example : Vertex1OK 1 1 (fun _ _ => (1 : ℚ)) 1 [1, 0] 1 :=
+  ⟨1, by decide +kernel, by decide +kernel, by decide +kernel, by decide +kernel,
+    by intro _; simp [rawCoord]⟩
+example : vertexEnum 1 1 [[0], [1]] [[1], [0]] [[0, 0], [1, 0]] [[0, 0], [1, 0]] (1 : ℚ) 1
+    = [([1], [1])] := by decide +kernel
+
+/-! ## Lemke-Howson -/
+
+/-- **Invariant of the complementary pivoting loop** (all `m, n ≥ 1`, all payoffs, all initial
+    pivots, all iteration bounds, i.e. all histories; exact idealisation
+    `tol_piv = tol_ratio_diff = 0`): after `_lemke_howson_tbl` both tableaux are in canonical
+    form for their bases, have non-negative right-hand sides and the same solution sets as the
+    initial tableaux `B̂x + s = 1`, `r + Ây = 1`; and if the run reports convergence, every
+    label `k` is non-basic in at least one tableau (the pair of basic solutions is completely
+    labelled). Part of the proof: the polytopes are bounded, so every ratio test returns a legal
+    pivot row — also when the code's `found` flag, which the code ignores, is `False` because
+    the lexicographic tie-breaking left several rows (`col_has_pos`, `lexMinRatio_row`). -/
+theorem lh_tbl_invariant (m n : ℕ) (hm : 1 ≤ m) (hn : 1 ≤ n) (A B : ℕ → ℕ → K) (ip maxIter : ℕ)
+    (hip : ip < m + n) :
+    LHBase m n A B (lhTbl m n A B ip maxIter 0 0).2 ∧
+    ((lhTbl m n A B ip maxIter 0 0).1 = true →
+      ∀ k, ¬ InB (lhTbl m n A B ip maxIter 0 0).2.b0 k ∨ ¬ InB (lhTbl m n A B ip maxIter 0 0).2.b1 k) :=
+  lhTbl_inv m n hm hn A B ip maxIter hip
+
+/-- **lemke_howson is sound** (every game with `m, n ≥ 1`, every initial pivot, with or without
+    capping, any `max_iter`; exact arithmetic): if the routine reports convergence and the
+    returned `x` is not the zero vector (it was normalised), the returned pair is a Nash
+    equilibrium of the given game `(A, B)` — not only of the shifted one in the tableaux.
+    *Partial* with respect to the property: (1) that a converged path never ends in the
+    artificial equilibrium `(0, 0)` is a hypothesis here, not a conclusion (it is the
+    Lemke-Howson parity argument); (2) the tolerances are 0. -/
+theorem lh_sound_partial (m n : ℕ) (hm : 1 ≤ m) (hn : 1 ≤ n) (A B : ℕ → ℕ → K)
+    (initPivot maxIter capping : ℕ) (hip : initPivot < m + n)
+    (hconv : (lhCapping m n A B initPivot maxIter capping 0 0).converged = true)
+    (hsx : basicSum (lhCapping m n A B initPivot maxIter capping 0 0).st.T0
+        (lhCapping m n A B initPivot maxIter capping 0 0).st.b0 0 m ≠ 0) :
+    IsNash m n A B
+      (fun i => (lhMixedActions m n (lhCapping m n A B initPivot maxIter capping 0 0).st).1.getD i 0)
+      (fun j => (lhMixedActions m n (lhCapping m n A B initPivot maxIter capping 0 0).st).2.getD j 0) := by
+  unfold lhCapping at hconv hsx ⊢
+  obtain ⟨ip, mi, hipl, hc, hst⟩ :=
+    lhCapLoop_is_tbl m n A B maxIter capping (0 : K) 0 (m + n - 1) initPivot maxIter 0 hip
+  rw [hc] at hconv
+  rw [hst] at hsx ⊢
+  obtain ⟨hbase, hlab⟩ := lhTbl_inv m n hm hn A B ip mi hipl
+  exact lhFinal_nash m n A B _ hbase (hlab hconv) hsx
+
+/-- non-vacuity: von Stengel's example, initial pivot 1: converged after 4 pivots, no failed
+    ratio test, and the result `((0,1/3,2/3),(1/3,2/3))` is normalised -/
+example :
+    let o := lhCapping 3 2 (fnOfMat [[3, 3], [2, 5], [0, 6]]) (fnOfMat [[3, 2, 3], [2, 6, 1]])
+      1 1000 1000 (0 : ℚ) 0
+    o.converged = true ∧ o.numIter = 4 ∧ basicSum o.st.T0 o.st.b0 0 3 = 3/8 ∧
+      lhMixedActions 3 2 o.st = ([0, 1/3, 2/3], [1/3, 2/3]) := by
+  decide +kernel
+
+/-! ## pure_nash_brute -/
+
+/-- **pure_nash_brute returns exactly the pure equilibria** (any number of players, any
+    numbers of actions): a list `a` is in the output iff it is an action profile and no player
+    gains more than `tol` by a unilateral deviation. (`payoffAt nums pay i a b` is player `i`'s
+    payoff when he plays `b` against the others' actions in `a`.) -/
+theorem pure_nash_brute_exact (nums : List ℕ) (pay : List (List K)) (tol : K) (a : List ℕ) :
+    a ∈ pureNashBrute nums pay tol ↔
+      IsProfile nums a ∧
+      ∀ i, i < nums.length → ∀ b, b < nums.getD i 0 →
+        payoffAt nums pay i a b ≤ payoffAt nums pay i a (a.getD i 0) + tol := by
+  unfold pureNashBrute
+  rw [List.mem_filter, mem_profiles]
+  constructor
+  · rintro ⟨hp, hn⟩
+    refine ⟨hp, ?_⟩
+    intro i hi
+    unfold isNashPure at hn
+    rw [List.all_eq_true] at hn
+    have hbr := hn i (List.mem_range.mpr hi)
+    have hpos : 0 < nums.getD i 0 := Nat.lt_of_le_of_lt (Nat.zero_le _) (hp.2 i hi)
+    exact (isBR_iff nums pay tol a i hpos).mp hbr
+  · rintro ⟨hp, hdev⟩
+    refine ⟨hp, ?_⟩
+    unfold isNashPure
+    rw [List.all_eq_true]
+    intro i hi
+    have hi' := List.mem_range.mp hi
+    have hpos : 0 < nums.getD i 0 := Nat.lt_of_le_of_lt (Nat.zero_le _) (hp.2 i hi')
+    exact (isBR_iff nums pay tol a i hpos).mpr (hdev i hi')
+
+/-- … and each of them exactly once. -/
+theorem pure_nash_brute_nodup (nums : List ℕ) (pay : List (List K)) (tol : K) :
+    (pureNashBrute nums pay tol).Nodup :=
+  (profiles_nodup nums).filter _
+
+/-- non-vacuity: in the Prisoners' Dilemma `(1,1)` is returned and `(0,0)` is not -/
+example : pureNashBrute [2, 2] [[1, -2, 3, 0], [1, -2, 3, 0]] (0 : ℚ) = [[1, 1]] := by decide +kernel
 
 end QE.C05
